@@ -1,11 +1,75 @@
-(* The instance of Comp/Core.v that is run against the gateway: flat models as key/value lists (Base/Value.v), change events
-   as Pure/ModelDiff.v applies them (ResourceSubscription.handleEventChange); [kv_norm] is the effective part of a change. *)
-From Coq Require Import List.
-From RG Require Import Base.Value Pure.ModelDiff Comp.Conv Comp.Core.
+(* The instance of Comp/Core.v that is run against the gateway: a flat resource is a model (key/value list, Base/Value.v) or
+   a collection (list of values); events are applied as Pure/ModelDiff.v and Comp/ResSub.v do it
+   (ResourceSubscription.handleEventChange / handleEventAdd / handleEventRemove): [cnorm] is what the cache hands to its
+   subscribers - the effective part of a change, an add or remove that is in range - or nothing. *)
+From Coq Require Import List Arith Bool.
+From RG Require Import Base.Value Pure.ModelDiff Comp.ResSub.
+From RG Require Comp.Conv Comp.Core.
 Import ListNotations.
 
-Definition kv_app (u v : kv) : kv := snd (apply_change u v).
-Definition kv_norm (u v : kv) : option kv := match fst (apply_change u v) with [] => None | e => Some e end.
-Definition kstep : Core.st kv kv -> Core.op kv -> Core.st kv kv * list (Core.out kv kv) := Core.step kv kv kv_app kv_norm.
-Definition kinit (t : kv) : Core.st kv kv := Core.init kv kv [] t.
-Definition ktruth (s : Core.st kv kv) : kv := Conv.truth kv kv (Core.cv kv kv s).
+Inductive cval := VM (m : kv) | VC (l : list value).
+Inductive cupd := UChange (p : kv) | UAdd (i : nat) (x : value) | URemove (i : nat).
+
+Definition capp (u : cupd) (v : cval) : cval :=
+  match u, v with
+  | UChange p, VM m => VM (snd (apply_change p m))
+  | UAdd i x, VC l => if Nat.leb i (length l) && is_proper x then VC (insert_nth i x l) else VC l
+  | URemove i, VC l => if Nat.ltb i (length l) then VC (remove_nth i l) else VC l
+  | _, _ => v
+  end.
+Definition cnorm (u : cupd) (v : cval) : option cupd :=
+  match u, v with
+  | UChange p, VM m => match fst (apply_change p m) with [] => None | e => Some (UChange e) end
+  | UAdd i x, VC l => if Nat.leb i (length l) && is_proper x then Some u else None
+  | URemove i, VC l => if Nat.ltb i (length l) then Some u else None
+  | _, _ => None
+  end.
+
+Definition kstep : Core.st cval cupd -> Core.op cupd -> Core.st cval cupd * list (Core.out cval cupd) := Core.step cval cupd capp cnorm.
+Definition kinit (t : cval) : Core.st cval cupd := Core.init cval cupd (VM []) t.
+Definition ktruth (s : Core.st cval cupd) : cval := Conv.truth cval cupd (Core.cv cval cupd s).
+
+(* the premises of the theorems about Core hold of this instance *)
+Lemma apply_change_idem : forall u v, apply_change (fst (apply_change u v)) v = apply_change u v.
+Proof.
+  induction u as [|[k x] ps IH]; intros v.
+  - reflexivity.
+  - specialize (IH v). cbn [apply_change].
+    destruct (apply_change ps v) as [eff m'] eqn:E. cbn [fst] in IH.
+    destruct x.
+    all: try (destruct (lookup k m') as [ov|] eqn:L;
+              [destruct (veq ov _) eqn:Q|];
+              cbn [fst]; try exact IH;
+              cbn [apply_change]; rewrite IH; rewrite L; try rewrite Q; reflexivity).
+    destruct (has_key k m') eqn:H; cbn [fst]; try exact IH.
+    cbn [apply_change]. rewrite IH, H. reflexivity.
+Qed.
+
+Lemma apply_change_nil : forall u v, fst (apply_change u v) = [] -> snd (apply_change u v) = v.
+Proof.
+  induction u as [|[k x] ps IH]; intros v.
+  - reflexivity.
+  - specialize (IH v). cbn [apply_change].
+    destruct (apply_change ps v) as [eff m'] eqn:E. cbn [fst snd] in IH.
+    destruct x.
+    all: try (destruct (lookup k m') as [ov|] eqn:L;
+              [destruct (veq ov _) eqn:Q|];
+              cbn [fst snd]; intros H; try discriminate H; auto).
+    destruct (has_key k m') eqn:H; cbn [fst snd]; intros H0; try discriminate H0; auto.
+Qed.
+
+Lemma cnorm_none : forall u v, cnorm u v = None -> capp u v = v.
+Proof.
+  intros [p|i x|i] [m|l]; unfold cnorm, capp; intros H; try reflexivity.
+  - destruct (fst (apply_change p m)) eqn:E; [|discriminate H]. rewrite (apply_change_nil p m E). reflexivity.
+  - destruct (Nat.leb i (length l) && is_proper x); [discriminate H|reflexivity].
+  - destruct (Nat.ltb i (length l)); [discriminate H|reflexivity].
+Qed.
+
+Lemma cnorm_some : forall u v u', cnorm u v = Some u' -> capp u' v = capp u v.
+Proof.
+  intros [p|i x|i] [m|l] u'; unfold cnorm; intros H; try discriminate H.
+  - destruct (fst (apply_change p m)) eqn:E; [discriminate H|]. injection H as <-. unfold capp. rewrite <- E, apply_change_idem. reflexivity.
+  - destruct (Nat.leb i (length l) && is_proper x) eqn:E; [|discriminate H]. injection H as <-. reflexivity.
+  - destruct (Nat.ltb i (length l)) eqn:E; [|discriminate H]. injection H as <-. reflexivity.
+Qed.
